@@ -1,17 +1,83 @@
-import Pycoin.Model.BIP32
-import Pycoin.Model.Electrum
+import Pycoin.Proofs.BIP32Basic
+import Pycoin.Proofs.BIP32Cache
 /-!
-C09 — Hierarchical key derivation follows BIP32 and commutes with going public.  Property theorems.
+C09 — Hierarchical key derivation follows BIP32 and commutes with going public.  Property theorems
+(helper lemmas: `Proofs/BIP32*.lean`).
 -/
 namespace Pycoin.BIP32
 
+/-! ## child metadata, refusal of hardened derivation from a public node -/
+
+/-- **metadata.** Whenever `_subkey(i, is_hardened, as_private)` returns a child: `0 ≤ i < 2³¹`; the child has the
+parent's class, depth + 1, the fingerprint **of the parent** (`hash160(parent.sec())[:4]`), child number `i` with
+bit 31 set exactly when hardened; it is public when `as_private` is false and has a secret exactly when the parent
+has one otherwise. -/
+theorem C09_metadata (g : Gen) (fuel : Nat) (n child : Node) (i : Int) (hardened asPrivate : Bool)
+    (h : subkeyRaw g fuel n i hardened asPrivate = .ok child) :
+    0 ≤ i ∧ i < 2 ^ 31 ∧
+    child.kind = n.kind ∧ child.depth = n.depth + 1 ∧
+    (∃ sec, n.sec = .ok sec ∧ child.parentFingerprint = (Hash.hash160 sec).take 4) ∧
+    (child.childIndex : Int) = (if hardened then i + 2 ^ 31 else i) ∧
+    (asPrivate = false → child.secretExponent = none) ∧
+    (asPrivate = true → child.secretExponent.isSome = n.secretExponent.isSome) := by
+  obtain ⟨h0, h1, h2, h3, h4, h5, h6, h7, -⟩ := subkeyRaw_meta h
+  refine ⟨h0, h1, h2, h3, ?_, h5, h6, h7⟩
+  unfold Node.fingerprint at h4
+  cases hs : n.sec with
+  | error e => simp [hs] at h4
+  | ok sec =>
+    simp only [hs, Except.ok.injEq] at h4
+    exact ⟨sec, rfl, h4.symm⟩
+
 /-- **hardened_from_public_refused.** On a public-only node `_subkey(i, is_hardened=True, …)` raises
-`PublicPrivateMismatchError` for every admissible index (whatever `as_private`), before any arithmetic. -/
+`PublicPrivateMismatchError` for every admissible index, whatever `as_private`, before any arithmetic
+(`fp` is the node's fingerprint: `sec()` of a node built by the constructor never fails). -/
 theorem C09_hardened_from_public_refused (g : Gen) (fuel : Nat) (n : Node) (i : Int) (asPrivate : Bool)
-    (hpub : n.secretExponent = none) (h0 : 0 ≤ i) (h1 : i < 0x80000000) (fp : Bytes) (hfp : n.fingerprint = .ok fp) :
+    (hpub : n.secretExponent = none) (h0 : 0 ≤ i) (h1 : i < 2 ^ 31) (fp : Bytes) (hfp : n.fingerprint = .ok fp) :
     subkeyRaw g fuel n i true asPrivate = .error .mismatch := by
   unfold subkeyRaw
   rw [if_neg (by omega), if_neg (by omega)]
-  simp [hfp, hpub]
+  simp [hfp, subkeyChild, hpub]
+
+/-- … and no child of a public-only node is ever hardened -/
+theorem C09_public_children_not_hardened (g : Gen) (fuel : Nat) (n child : Node) (i : Int) (hardened asPrivate : Bool)
+    (hpub : n.secretExponent = none) (h : subkeyRaw g fuel n i hardened asPrivate = .ok child) :
+    hardened = false ∧ child.childIndex < 2 ^ 31 ∧ child.secretExponent = none := by
+  obtain ⟨h0, h1, -, -, -, h5, h6, h7, h8⟩ := subkeyRaw_meta h
+  have hh := h8 hpub
+  subst hh
+  simp only [Bool.false_eq_true, if_false] at h5
+  refine ⟨rfl, by omega, ?_⟩
+  cases asPrivate with
+  | false => exact h6 rfl
+  | true => have := h7 rfl; simp [hpub] at this; exact this
+
+/-! ## the sub-key cache is transparent -/
+
+/-- **cache_transparent.** For every sequence of `subkey(i, is_hardened, as_private)` calls on one node object — any
+indices, any order, repetitions, calls that raise — starting from the empty cache the constructor installs, the list
+of answers is the list of uncached derivations. -/
+theorem C09_cache_transparent (g : Gen) (fuel : Nat) (n : Node) (calls : List (Int × Bool × Option Bool)) :
+    subkeyRun g fuel n [] calls = calls.map fun q => subkey0 g fuel n q.1 q.2.1 q.2.2 :=
+  subkeyRun_eq calls [] (fun _ _ h => by cases h)
+
+/-- the same from any cache state reachable by earlier calls (the invariant: every entry is `_subkey` of its key) -/
+theorem C09_cache_transparent_from (g : Gen) (fuel : Nat) (n : Node) (c : Cache) (hc : c.Sound g fuel n)
+    (calls : List (Int × Bool × Option Bool)) :
+    subkeyRun g fuel n c calls = calls.map fun q => subkey0 g fuel n q.1 q.2.1 q.2.2 :=
+  subkeyRun_eq calls c hc
+
+/-- the invariant is kept by every call, and a call answers with the uncached derivation -/
+theorem C09_cache_invariant (g : Gen) (fuel : Nat) (n : Node) (c : Cache) (hc : c.Sound g fuel n)
+    (i : Int) (hardened : Bool) (asPrivate : Option Bool) :
+    (subkey g fuel n c i hardened asPrivate).1 = subkey0 g fuel n i hardened asPrivate ∧
+      (subkey g fuel n c i hardened asPrivate).2.Sound g fuel n :=
+  subkey_sound hc i hardened asPrivate
+
+/-- **cache_transparent along paths.** For every sequence of `subkey_for_path` calls on one root object — whose
+descendants each keep their own cache — the answers are those of the uncached fold. -/
+theorem C09_cache_transparent_paths (g : Gen) (fuel : Nat) (root : Node) (paths : List (List Char)) :
+    pathRun g fuel root [] paths = paths.map (subkeyForPath g fuel root) :=
+  pathRun_eq paths [] (fun _ _ h => by cases h)
 
 end Pycoin.BIP32
